@@ -4,3 +4,4 @@ Redirect "C08_rectangular_j2000_norm.assumptions" Print Assumptions C08_rectangu
 Redirect "C08_rectangular_b1950_closed_form.assumptions" Print Assumptions C08_rectangular_b1950_closed_form.
 Redirect "C08_moon_node_constants.assumptions" Print Assumptions C08_moon_node_constants.
 Redirect "C08_nutation_obliquity_main_term.assumptions" Print Assumptions C08_nutation_obliquity_main_term.
+Redirect "C08_nutation_shapes_wide.assumptions" Print Assumptions C08_nutation_shapes_wide.
